@@ -83,6 +83,15 @@ Definition msg_obs_hash (normalize : bool) (v : mvar) : res bytes :=
 Definition msg_after_hash (normalize : bool) (v : mvar) : mvar :=
   mkmv (mv_hash v) (option_map (after_hash normalize) (mv_val v)).
 
+(* a sequence of m.Hash(n) calls on one Message value, each call atomic: the
+   answers, threading the receiver through [after_hash].  Every interleaving of
+   the calls of several goroutines is such a sequence. *)
+Fixpoint run_hash_calls (calls : list bool) (m : msg) : list (res bytes) :=
+  match calls with
+  | [] => []
+  | n :: t => msg_hash H n m :: run_hash_calls t (after_hash n m)
+  end.
+
 End Hist.
 Arguments mktv {S}. Arguments tv_hash {S}. Arguments tv_src {S}. Arguments tv_val {S}.
 Arguments tvar_zero {S}. Arguments tx_assign_res {S}. Arguments tx_assign {S}.
